@@ -343,6 +343,10 @@ pub fn scenarios() -> Vec<Scenario> {
         ("prune-repack-fast", PruneOptions::default().max_unused(LimitOption::Percentage(0)).max_repack(LimitOption::Unlimited).fast_repack(true), false),
         ("prune-repack-slow", PruneOptions::default().max_unused(LimitOption::Percentage(0)).max_repack(LimitOption::Unlimited), false),
         ("prune-instant-delete", PruneOptions::default().instant_delete(true).max_unused(LimitOption::Percentage(0)).max_repack(LimitOption::Unlimited), false),
+        // early-delete-index is documented to act only together with instant-delete (the excluded,
+        // documented-unsafe pair); set alone it must leave the order of operations untouched
+        ("prune-early-delete-index-alone", PruneOptions::default().early_delete_index(true).max_unused(LimitOption::Percentage(0)).max_repack(LimitOption::Unlimited), false),
+        ("prune-early-delete-index-alone-marked", PruneOptions::default().early_delete_index(true).keep_delete(jiff::Span::new()), true),
     ];
     for (name, opts, premark) in prune_variants {
         let (env, mut allowed) = base_repo(3, 600, if name.starts_with("prune-repack-trees") { 4000 } else { 500 });
